@@ -222,6 +222,11 @@ def rule_WB(ctx):
                 continue
             n += 1
             it = lp.iter
+            target = lp.target
+            # `for k, v in enumerate(range(...), start=..)`: the positions are still the range's
+            if isinstance(it, ast.Call) and isinstance(it.func, ast.Name) and it.func.id == 'enumerate' and it.args and isinstance(target, ast.Tuple) \
+                    and len(target.elts) == 2:
+                it, target = it.args[0], target.elts[1]
             if not (isinstance(it, ast.Call) and isinstance(it.func, ast.Name) and it.func.id == 'range' and len(it.args) >= 2):
                 raise AnalysisError(f'{f.key}: write loop is not a range() loop (needs a human)')
             stop = it.args[1]
@@ -246,7 +251,7 @@ def rule_WB(ctx):
                 return False
             # does the loop variable name the END of each written pattern (writes start at v - stride) or its START (writes run
             # from v to v + stride)?  In the second case the last start must be at most <bounded> - stride.
-            v = lp.target.id if isinstance(lp.target, ast.Name) else None
+            v = target.id if isinstance(target, ast.Name) else None
             stride = ast.unparse(it.args[2]) if len(it.args) > 2 else '1'
             starts = [x for x in ast.walk(lp) if isinstance(x, ast.Assign) and isinstance(x.value, ast.Name) and x.value.id == v]
             ends = [x for x in ast.walk(lp) if isinstance(x, ast.Assign) and isinstance(x.value, ast.BinOp) and isinstance(x.value.op, ast.Sub)
@@ -351,6 +356,16 @@ def facts_before(f, var, line, node=None):
                 if isinstance(o, ast.Name) and o.id == var:
                     out.add('ne0')
                 out |= pos_atoms(o)
+                if isinstance(o, ast.Compare) and len(o.ops) >= 2 and not (len(o.ops) == 2 and G.is_zero(o.left) and isinstance(o.comparators[0], ast.Name)
+                                                                         and o.comparators[0].id == var and _is_len_self(o.comparators[1], aliases)):
+                    # a longer chain `0 <= a <= b <= len(self)`: everything left of var bounds it from below, everything right from above
+                    terms = [o.left] + list(o.comparators)
+                    for i, t in enumerate(terms):
+                        if isinstance(t, ast.Name) and t.id == var and all(isinstance(op, (ast.Lt, ast.LtE)) for op in o.ops):
+                            if G.is_zero(terms[0]) and i > 0:
+                                out.add('gt0' if any(isinstance(op, ast.Lt) for op in o.ops[:i]) else 'ge0')
+                            if _is_len_self(terms[-1], aliases) and i < len(terms) - 1:
+                                out.add('lt_len' if any(isinstance(op, ast.Lt) for op in o.ops[i:]) else 'le_len')
                 if isinstance(o, ast.Compare) and len(o.ops) == 2 and G.is_zero(o.left) and isinstance(o.comparators[0], ast.Name) \
                         and o.comparators[0].id == var and _is_len_self(o.comparators[1], aliases):
                     lo, hi = o.ops
@@ -392,6 +407,17 @@ def facts_before(f, var, line, node=None):
                     facts.update(validator_facts(_MODEL[0], v.func.attr))     # pos = self._checked_position(pos)
                 else:
                     facts.clear()
+            elif isinstance(s, ast.Assign) and len(s.targets) == 1 and isinstance(s.targets[0], ast.Tuple) and any(
+                    isinstance(t, ast.Name) and t.id == var for t in s.targets[0].elts):
+                # start, end = self._validate_slice(start, end): what the validator establishes for the value at that position
+                v = s.value
+                idx = [i for i, t in enumerate(s.targets[0].elts) if isinstance(t, ast.Name) and t.id == var][0]
+                vf = None
+                if isinstance(v, ast.Call) and isinstance(v.func, ast.Attribute) and ast.unparse(v.func.value) == 'self':
+                    vf = tuple_validator_facts(_MODEL[0], v.func.attr, idx, len(s.targets[0].elts))
+                facts.clear()
+                if vf:
+                    facts.update(vf)
             elif isinstance(s, ast.AugAssign) and isinstance(s.target, ast.Name) and s.target.id == var:
                 facts.clear()
             elif isinstance(s, (ast.For, ast.While, ast.With, ast.Try)):
@@ -416,6 +442,54 @@ def facts_before(f, var, line, node=None):
     if 'lt_len' in facts:
         facts.add('le_len')
     return facts
+
+
+def _reduced_modulo(f, b, e, line):
+    """`b %= e - s` (or b = b % (e - s)) is the last binding of b before the line: returns s, else None."""
+    last = None
+    for x in own_walk(f.node):
+        if getattr(x, 'lineno', 10 ** 9) >= line:
+            continue
+        if isinstance(x, ast.AugAssign) and isinstance(x.target, ast.Name) and x.target.id == b:
+            last = x
+        elif isinstance(x, ast.Assign) and any(isinstance(t, ast.Name) and t.id == b for t in x.targets):
+            last = x
+    m_ = None
+    if isinstance(last, ast.AugAssign) and isinstance(last.op, ast.Mod):
+        m_ = last.value
+    elif isinstance(last, ast.Assign) and isinstance(last.value, ast.BinOp) and isinstance(last.value.op, ast.Mod) and isinstance(last.value.left, ast.Name) \
+            and last.value.left.id == b:
+        m_ = last.value.right
+    if isinstance(m_, ast.BinOp) and isinstance(m_.op, ast.Sub) and isinstance(m_.left, ast.Name) and m_.left.id == e and isinstance(m_.right, ast.Name):
+        # e and s themselves must not change between the reduction and the use
+        s_ = m_.right.id
+        for x in own_walk(f.node):
+            if last.lineno < getattr(x, 'lineno', 0) < line and isinstance(x, (ast.Assign, ast.AugAssign)):
+                tg = x.targets if isinstance(x, ast.Assign) else [x.target]
+                if any(isinstance(y, ast.Name) and y.id in (e, s_, b) for t in tg for y in ast.walk(t)):
+                    return None
+        return s_
+    return None
+
+
+def tuple_validator_facts(model, mname, idx, width):
+    """For a method whose every return is a tuple of `width` of its own (normalised) parameters: the facts that hold for the
+    parameter at position idx at the returns."""
+    if model is None:
+        return None
+    cands = [ci.methods[mname] for c, ci in model.classes.items() if mname in ci.methods]
+    out = None
+    for g in cands:
+        rets = [x for x in own_walk(g.node) if isinstance(x, ast.Return)]
+        if not rets:
+            return None
+        for x in rets:
+            if not (isinstance(x.value, ast.Tuple) and len(x.value.elts) == width and isinstance(x.value.elts[idx], ast.Name)
+                    and x.value.elts[idx].id in g.params()):
+                return None
+            fx = facts_before(g, x.value.elts[idx].id, x.lineno)
+            out = fx if out is None else (out & fx)
+    return out
 
 
 def _endian_assert_exhaustive(m, f, a):
@@ -613,6 +687,13 @@ def rule_N1(ctx):
                     bad = (g, cs.node, p, need, 'argument not found')
                     continue
                 arg = args[pos.index(p)]
+                if isinstance(arg, ast.Name) and arg.id not in g.params():
+                    # a local that only names an expression (`insert_at = end - bits`): judge the expression
+                    defs_ = [y for y in own_walk(g.node) if isinstance(y, (ast.Assign, ast.AugAssign, ast.For)) and any(
+                        isinstance(z, ast.Name) and z.id == arg.id for t in (y.targets if isinstance(y, ast.Assign) else [y.target]) for z in ast.walk(t))]
+                    if len(defs_) == 1 and isinstance(defs_[0], ast.Assign) and len(defs_[0].targets) == 1 and isinstance(defs_[0].targets[0], ast.Name) \
+                            and isinstance(defs_[0].value, ast.BinOp):
+                        arg = defs_[0].value
                 if isinstance(arg, ast.Constant) and isinstance(arg.value, int):
                     have = {'ge0'} if arg.value >= 0 else set()
                     if arg.value > 0:
@@ -624,6 +705,17 @@ def rule_N1(ctx):
                     # f(min(v, len(self))): the clipping `v = min(v, len(self))` written in the argument
                     v = next(a for a in arg.args if isinstance(a, ast.Name) and not _is_len_self(a, _len_aliases(g)))
                     have = facts_before(g, v.id, cs.node.lineno, node=cs.node) | {'le_len'}
+                elif isinstance(arg, ast.BinOp) and isinstance(arg.op, ast.Sub) and isinstance(arg.left, ast.Name) and isinstance(arg.right, ast.Name) \
+                        and _reduced_modulo(g, arg.right.id, arg.left.id, cs.node.lineno):
+                    # f(e - b) after `b %= e - s` with s, e validated: 0 <= b < e - s, hence s < e - b <= e, inside [0, len]
+                    e_facts = facts_before(g, arg.left.id, cs.node.lineno, node=cs.node)
+                    s_name = _reduced_modulo(g, arg.right.id, arg.left.id, cs.node.lineno)
+                    s_facts = facts_before(g, s_name, cs.node.lineno, node=cs.node)
+                    have = set()
+                    if 'le_len' in e_facts:
+                        have.add('le_len')
+                    if 'ge0' in s_facts:
+                        have |= {'ge0'}
                 else:
                     have = set()
                 if not need <= have:
